@@ -431,10 +431,17 @@ def r06_11(run, model):
     # the function and the per-kind helpers it hands a branch to (compile_int_match_branch and its siblings)
     sites_ = [(g, st) for g in model.scope_fns(f) if g.name not in resolvers for st in S.walk(g.body)]
     for g, st in sites_:
-        if st["k"] != "Struct" or not S.norm_ws(run.facts.text(GO, st["sp"])).startswith("goast::Stmt::SwitchType{"):
+        if st["k"] != "Struct" or st["segs"][-1] != "SwitchType":
             continue
-        txt = S.norm_ws(run.facts.text(GO, st["sp"]))
-        m = re.search(r"bind:Some\((\w+)\)", txt)
+        bf = next((fl for fl in st["fields"] if fl["name"] == "bind"), None)
+        be = bf["expr"] if bf is not None else None
+        m = None
+        if be is not None and be["k"] == "Call" and S.callee_name(be) == "Some" and be["args"]:
+            x = be["args"][0]
+            while x["k"] in ("MethodCall", "Ref") and (x["k"] == "Ref" or x["method"] in ("clone", "to_string", "to_owned", "into")):
+                x = x["recv"] if x["k"] == "MethodCall" else x["expr"]
+            if x["k"] == "Path" and len(x["segs"]) == 1:
+                m = re.match(r"(\w+)", x["segs"][0])
         if not m:
             continue
         n += 1
